@@ -45,7 +45,7 @@ func (p *propSpec) with(r ...runSpec) *propSpec { p.runs = append(p.runs, r...);
 
 func assume(extra ...string) []string { return append(append([]string{}, commonAssumptions...), extra...) }
 
-const allocRule = "each case fixes a pool (IPv4 sizes 1,2,3,63,64,65,127,128,129,256,4097 incl. ranges starting at 0.0.0.0 / ending at 255.255.255.255; IPv6 pool/allocation lengths on both sides of the 64-bit boundary, all-ones/all-zero bases) and a PRNG seed; 20-200 Allocate/Free operations are drawn from the PRNG and the model state (hint on free/taken/own block, outside below/above, other family, length-only, every mask class; Free of outstanding block, sub-prefix, never-allocated, already-freed, 1..N+2 blocks below/above the pool, far away) and every result is decided by a set-of-outstanding-blocks model with math/big address arithmetic; every history ends with a conservation audit (drain). "
+const allocRule = "each case fixes a pool (IPv4 sizes 1,2,3,63,64,65,127,128,129,256,4097 incl. ranges starting at 0.0.0.0 / ending at 255.255.255.255; IPv6 pool/allocation lengths on both sides of the 64-bit boundary, all-ones/all-zero bases) and a PRNG seed; 20-200 Allocate/Free operations are drawn from the PRNG and the model state (hint on free/taken/own block, outside below/above, other family, length-only, every mask class, IPv4 hints in 4- and 16-byte form with no mask, /32 and /128; Free of outstanding block, sub-prefix, never-allocated, already-freed, 1..N+2 blocks below/above the pool, far away) and every result is decided by a set-of-outstanding-blocks model with math/big address arithmetic; every history ends with a conservation audit (drain). The histories run on the native build and on a GOARCH=386 build of the allocator packages. "
 
 func allocSpec(nontrivial string, guards ...guard) *propSpec {
 	return &propSpec{
@@ -54,6 +54,9 @@ func allocSpec(nontrivial string, guards ...guard) *propSpec {
 		assumptions: assume("Free of a super-prefix covering several blocks and wrong-family Free on the IPv6 allocator are outside the statement and are not generated"),
 		runs: []runSpec{
 			{engine: "alloc", loglevel: "fatal", qBatches: 16, qCases: 750, tBatches: 64, tCases: 6000},
+			// the same histories against a 32-bit build of the allocators (word-size dependent shifts and
+			// conversions of block indexes); pools of 2^32 blocks and more are skipped there
+			{engine: "alloc", pkg: "./cmd/varith", goarch: "386", qBatches: 8, qCases: 250, tBatches: 32, tCases: 1500},
 		},
 		guards: guards,
 	}
